@@ -532,9 +532,31 @@ fn concat_parts(parts: Vec<Expr>, attr_ptr: &MySyntaxNodePtr) -> Expr {
     acc
 }
 
+/// The runtime function that renders a primitive (`builtin.gom`). Only `int32` also has a
+/// `to_string` method, so the generated code calls these functions by name.
+fn primitive_to_string_fn(ty: &ast::TypeExpr) -> Option<&'static str> {
+    match ty {
+        ast::TypeExpr::TUnit => Some("unit_to_string"),
+        ast::TypeExpr::TBool => Some("bool_to_string"),
+        ast::TypeExpr::TInt8 => Some("int8_to_string"),
+        ast::TypeExpr::TInt16 => Some("int16_to_string"),
+        ast::TypeExpr::TInt32 => Some("int32_to_string"),
+        ast::TypeExpr::TInt64 => Some("int64_to_string"),
+        ast::TypeExpr::TUint8 => Some("uint8_to_string"),
+        ast::TypeExpr::TUint16 => Some("uint16_to_string"),
+        ast::TypeExpr::TUint32 => Some("uint32_to_string"),
+        ast::TypeExpr::TUint64 => Some("uint64_to_string"),
+        ast::TypeExpr::TFloat32 => Some("float32_to_string"),
+        ast::TypeExpr::TFloat64 => Some("float64_to_string"),
+        _ => None,
+    }
+}
+
 fn call_to_string(value: Expr, ty: Option<&ast::TypeExpr>, attr_ptr: &MySyntaxNodePtr) -> Expr {
     if matches!(ty, Some(ast::TypeExpr::TString)) {
         value
+    } else if let Some(helper) = ty.and_then(primitive_to_string_fn) {
+        call_function(helper, vec![value], attr_ptr)
     } else {
         Expr::ECall {
             func: Box::new(Expr::EField {
@@ -557,39 +579,24 @@ fn call_to_json(value: Expr, ty: Option<&ast::TypeExpr>, attr_ptr: &MySyntaxNode
         }
         // Booleans are serialized as true/false (lowercase)
         Some(ast::TypeExpr::TBool) => call_function("bool_to_json", vec![value], attr_ptr),
-        // Numbers can be serialized directly via to_string
-        Some(ast::TypeExpr::TInt8)
-        | Some(ast::TypeExpr::TInt16)
-        | Some(ast::TypeExpr::TInt32)
-        | Some(ast::TypeExpr::TInt64)
-        | Some(ast::TypeExpr::TUint8)
-        | Some(ast::TypeExpr::TUint16)
-        | Some(ast::TypeExpr::TUint32)
-        | Some(ast::TypeExpr::TUint64)
-        | Some(ast::TypeExpr::TFloat32)
-        | Some(ast::TypeExpr::TFloat64) => Expr::ECall {
-            func: Box::new(Expr::EField {
-                expr: Box::new(value),
-                field: AstIdent::new(TO_STRING_FN),
-                astptr: *attr_ptr,
-            }),
-            args: Vec::new(),
-            astptr: *attr_ptr,
-        },
         // Unit serializes as null
         Some(ast::TypeExpr::TUnit) => Expr::EString {
             value: "null".to_string(),
             astptr: *attr_ptr,
         },
-        // For other types (user-defined structs/enums), call .to_json()
-        _ => Expr::ECall {
-            func: Box::new(Expr::EField {
-                expr: Box::new(value),
-                field: AstIdent::new(TO_JSON_FN),
+        // Numbers are serialized by their to_string runtime function; for other types
+        // (user-defined structs/enums), call .to_json()
+        other => match other.and_then(primitive_to_string_fn) {
+            Some(helper) => call_function(helper, vec![value], attr_ptr),
+            None => Expr::ECall {
+                func: Box::new(Expr::EField {
+                    expr: Box::new(value),
+                    field: AstIdent::new(TO_JSON_FN),
+                    astptr: *attr_ptr,
+                }),
+                args: Vec::new(),
                 astptr: *attr_ptr,
-            }),
-            args: Vec::new(),
-            astptr: *attr_ptr,
+            },
         },
     }
 }
